@@ -384,3 +384,36 @@ def kinetics_mixed_units(u1, u2, g):
     a = [si(v) for v in (kinetics.compute_dstatedt(build(False)).get_at(i) for i in range(6))]
     b = [si(v) for v in (kinetics.compute_dstatedt(build(True)).get_at(i) for i in range(6))]
     return all(close(x, y) for x, y in zip(a, b))
+
+
+def abi_k_mixed(u1, u2, opt, g):
+    """rate constants and diffusion coefficients whose per-environment entries are written in DIFFERENT units reach the native engine
+    as the same numbers as the model written in bare default-unit numbers (every environment / reaction entry of the k and D vectors)"""
+    k1, k2 = KEYS[u1 % 11], KEYS[u2 % 11]
+    option = ["euler", "tauleap", "gillespie"][opt % 3]
+
+    def q(x, key, dim):
+        return "%r %s" % (x * F("A", dim) / F(key, dim), str(Units(SYS[key], UnitsDimensions(*dim))))
+    Dd, k1d, k2d = (2, -1, 0), (0, -1, 0), (3, -1, -1)
+
+    def build(explicit):
+        DA = {"e0": q(1.5, k1, Dd), "e1": q(4.0, k2, Dd), "e2": 0.75} if explicit else {"e0": 1.5, "e1": 4.0, "e2": 0.75}
+        kf = {"e0": q(1.25, k1, k1d), "e1": q(0.25, k2, k1d), "e2": 3.0} if explicit else {"e0": 1.25, "e1": 0.25, "e2": 3.0}
+        kb = {"e0": 2.0, "e1": q(0.5, k2, k2d), "e2": q(0.125, k1, k2d)} if explicit else {"e0": 2.0, "e1": 0.5, "e2": 0.125}
+        net = RDNetwork(species=[Species("A", D=DA, density=2.0), Species("B", D=0.5, density=1.0)],
+                        reactions=[Reaction("A -> B", kf=kf, kr=0.5), Reaction("A + B -> A", kf=kb)], environments=["e0", "e1", "e2"])
+        if g:
+            sp = RDGraphSpace(nodes=[N(8.0, 0), N(27.0, 1), N(1.0, 2)], edges=[E(0, 1, 4.0, 2.5), E(2, 1, 1.0, 2.0)])
+        else:
+            sp = RDGridSpace(w=3, h=1, d=1, cell_env=[0, 1, 2], cell_vol=8.0)
+        return RDScript(RDSystem(net, sp), [0, 1.0])
+    a, b = abi_in_si_raw(build(False), option), abi_in_si_raw(build(True), option)
+    return all(close(x, y) for x, y in zip(a["k"], b["k"])) and all(close(x, y) for x, y in zip(a["D"], b["D"])) and len(a["k"]) == len(b["k"]) == 12
+
+
+def abi_in_si_raw(script, option):
+    lib = RecLib()
+    e = LibRDEngine(lib, option=option, requires_molecules=option in ("gillespie", "tauleap"))
+    e.setup(script)
+    name, vals = [c for c in lib.log if c[0].startswith("engineexport_initialize")][0]
+    return dict(zip(GRID_NAMES if name.endswith("grid") else GRAPH_NAMES, vals))
